@@ -97,6 +97,11 @@ var props = map[string]*Prop{
 		Bounds:      map[string]string{"quick": "histories <=2 ops (110) + bulk rebuild", "thorough": "histories <=3 ops (1110) + bulk rebuild"},
 		Units: []Unit{
 			{Name: "crash-images", Pkg: "pkg/storage/pebbledb", Test: "TestVerifC07", Shards: sh(16, 16), TimeoutS: sh(900, 3600), DeadlineS: sh(400, 2400)},
+			{Name: "index-json-crash-points", Pkg: "internal/cli", Test: "TestVerifC07IndexJSON", Tags: []string{"verif_vos"}, Shards: sh(1, 1), TimeoutS: sh(900, 900),
+				Profile: ovgen.Profile{Imports: []ovgen.ImportRewrite{
+					{File: "internal/cli/index.go", Map: map[string]string{"os": ovgen.ShimBase + "vos"}},
+					{File: "pkg/storage/jsondb/json_store.go", Map: map[string]string{"os": ovgen.ShimBase + "vos"}},
+				}}},
 			{Name: "crash-bulk-rebuild", Pkg: "pkg/storage/pebbledb", Test: "TestVerifC07Bulk", Shards: sh(16, 16), TimeoutS: sh(900, 3600), DeadlineS: sh(400, 2400)},
 		},
 	},
